@@ -32,14 +32,21 @@ def rebuilt(node, prime=None):
     if node2 is None:
         return None
     S_ = build(node)
+    before, _ = S_.flatten()
     if prime is not None:
         prime(S_)
     T_ = build(node2)
     ps, unflatten = S_.flatten()
     pt, _ = T_.flatten()
-    if len(ps) != len(pt) or any(np.shape(a) != np.shape(b) or np.asarray(a).dtype != np.asarray(b).dtype for a, b in zip(ps, pt)):
+    if len(before) != len(pt) or any(np.shape(a) != np.shape(b) or np.asarray(a).dtype != np.asarray(b).dtype for a, b in zip(before, pt)):
         return None
-    return unflatten(pt), node2
+    # every array parameter the operator had before it was used gets the other data; whatever else the flattened operator lists
+    # after the use (nothing, for an operator that is a value) gets other data too, as a caller's tree_map would give it
+    new = []
+    for a in ps:
+        j = next((i for i, b in enumerate(before) if a is b), None)
+        new.append(pt[j] if j is not None else (a * 2 if isinstance(a, np.ndarray) and a.dtype.kind in "fc" else a))
+    return unflatten(new), node2
 
 
 def layout(A, node):
